@@ -377,32 +377,42 @@ DEC_RFAULTS = {'kind': 'gen', 'name': 'randomfaults', 'gen': dec_faults, 'comp':
 DEC_RANY = {'kind': 'gen', 'name': 'randomhistory', 'gen': dec_anyhist, 'comp': 'dec', 'trace': 'TraceDec'}
 DEC_FRAMES = {'kind': 'gen', 'name': 'randomframes', 'gen': dec_frames, 'comp': 'dec', 'trace': 'TraceDec'}
 
+# ------------------------------------------------------------------ the repository's own tests as recorded behaviours
+# harness/suite/suite_wrap.cpp records every call the 294 gtest cases make to Encoder / Decoder / Status /
+# TECMP::Decoder (ld --wrap, no source change); the ordinary trace specifications judge them: every monitor at every
+# call of the suite's own scenarios, not only what the tests assert.
+SUITE_ENC = {'kind': 'suite', 'name': 'suite-recorded', 'comp': 'enc', 'trace': 'TraceEnc'}
+SUITE_DEC = {'kind': 'suite', 'name': 'suite-recorded', 'comp': 'dec', 'trace': 'TraceDec'}
+SUITE_ST = {'kind': 'suite', 'name': 'suite-recorded', 'comp': 'st', 'trace': 'TraceStatus'}
+SUITE_RULE = (" Also: the calls of the repository's own gtest suite on this component, recorded at the public entry points "
+              "(ld --wrap) and judged by the same trace specification.")
+
 PROPS = {
-    'C01': {'level': 'model_checking', 'stages': [ENC_BATCH, ENC_WRAP, ENC_RANDOM], 'nontrivial_case': nt_enc_any,
+    'C01': {'level': 'model_checking', 'stages': [ENC_BATCH, ENC_WRAP, ENC_RANDOM, SUITE_ENC], 'nontrivial_case': nt_enc_any,
             'rule': 'MC_Enc/EncBatch: every batch of 0..MaxPk packets over LenSet x MtSet x every context of MaxSet x MinSet, '
                     'encoder spec composed with decoder spec (InvC01), each enumerated case replayed on the real encoder and '
                     'decoder and judged by TraceEnc (RoundTripOK on logged input and decoded packets); plus seeded random '
                     'batches of all eight payload kinds, payloads up to 65535 bytes. Non-trivial = distinct episodes with a '
                     'non-empty batch.',
             'assumptions': COMMON_ASSUMPTIONS},
-    'C07': {'level': 'model_checking', 'stages': [ENC_BATCH, ENC_RANDOM], 'nontrivial_case': nt_enc_any,
+    'C07': {'level': 'model_checking', 'stages': [ENC_BATCH, ENC_RANDOM, SUITE_ENC], 'nontrivial_case': nt_enc_any,
             'rule': 'as C01; monitor FramesWellFormed (independent frame walker of spec/Frames.tla) on the logged frames. '
                     'Non-trivial = distinct episodes with a non-empty batch; counters give how many calls needed segmentation, aggregation, padding.',
             'assumptions': COMMON_ASSUMPTIONS},
-    'C08': {'level': 'model_checking', 'stages': [ENC_BATCH, ENC_WRAP, ENC_RANDOM], 'nontrivial_case': nt_enc_segmented,
+    'C08': {'level': 'model_checking', 'stages': [ENC_BATCH, ENC_WRAP, ENC_RANDOM, SUITE_ENC], 'nontrivial_case': nt_enc_segmented,
             'rule': 'as C01 with lengths on both sides of every fit/no-fit boundary; monitor SegRules on the logged frames. '
                     'Non-trivial = distinct episodes in which at least one packet needed segmentation.',
             'assumptions': COMMON_ASSUMPTIONS},
-    'C09': {'level': 'model_checking', 'stages': [ENC_HIST, ENC_PATHS, ENC_WRAP, ENC_HRANDOM], 'nontrivial_case': nt_enc_hist,
+    'C09': {'level': 'model_checking', 'stages': [ENC_HIST, ENC_PATHS, ENC_WRAP, ENC_HRANDOM, SUITE_ENC], 'nontrivial_case': nt_enc_hist,
             'rule': 'MC_Enc/EncHist: every sequence of up to MaxOps operations {setDeviceId, setStreamId, restart, encode} '
                     '(edge dump: one path per transition), a 70000-frame history that wraps the counter, seeded random '
                     'histories; monitor CounterRule. Non-trivial = distinct histories of at least two operations after init containing an encode call (wrap_calls counts wrap crossings).',
             'assumptions': COMMON_ASSUMPTIONS},
-    'C10': {'level': 'model_checking', 'stages': [ENC_HIST, ENC_PATHS, ENC_WRAP, ENC_HRANDOM], 'nontrivial_case': nt_enc_later_segmented,
+    'C10': {'level': 'model_checking', 'stages': [ENC_HIST, ENC_PATHS, ENC_WRAP, ENC_HRANDOM, SUITE_ENC], 'nontrivial_case': nt_enc_later_segmented,
             'rule': 'as C09; every encode event also logs the frames of a fresh encoder with the same ids; monitor '
                     'SameUpToShift. Non-trivial = distinct histories whose second or later encode call needed segmentation.',
             'assumptions': COMMON_ASSUMPTIONS},
-    'C05': {'level': 'model_checking', 'stages': [DEC_REASM, DEC_LINK_WALKS, DEC_STREAMS], 'nontrivial_case': nt_dec_segmented, 'nontrivial_op': ntop_segment,
+    'C05': {'level': 'model_checking', 'stages': [DEC_REASM, DEC_LINK_WALKS, DEC_STREAMS, SUITE_DEC], 'nontrivial_case': nt_dec_segmented, 'nontrivial_op': ntop_segment,
             'rule': 'MC_Link/Reassembly: per-endpoint senders of well-formed streams (unsegmented, 2..MaxSegs segments of every '
                     'size in SegSizes, optional trailing bytes / zero padding after a segment, counters crossing 65535->0), all '
                     'interleavings up to MaxFrames frames; every transition replayed on the real decoder (tree replay with '
@@ -418,7 +428,7 @@ PROPS = {
                     'endpoint) and Recovery (a last segment extending a clean run delivers). Non-trivial = distinct faulted '
                     'operations (tree stage) / distinct episodes containing at least one fault (random stage).',
             'assumptions': COMMON_ASSUMPTIONS},
-    'C17': {'level': 'model_checking', 'stages': [DEC_APALACHE, DEC_ANY, DEC_ANY_WALKS, DEC_RANY, DEC_STREAMS], 'nontrivial_case': nt_dec_segmented, 'nontrivial_op': ntop_segment,
+    'C17': {'level': 'model_checking', 'stages': [DEC_APALACHE, DEC_ANY, DEC_ANY_WALKS, DEC_RANY, DEC_STREAMS, SUITE_DEC], 'nontrivial_case': nt_dec_segmented, 'nontrivial_op': ntop_segment,
             'rule': 'MC_DecAny: every history up to MaxFrames buffers over an alphabet of well-formed, orphan, out-of-order, '
                     'changed-version/type, trailing-byte, multi-message, invalid, truncated, header-only, undersized and '
                     'TECMP-routed buffers on NEndpoints endpoints, counters crossing the wrap; tree replay on the real decoder; '
@@ -432,7 +442,7 @@ PROPS = {
                     'frame\'s endpoint, non-CMP buffers leave the pending table untouched. Non-trivial = distinct decode operations (tree stage) / '
                     'distinct episodes of at least two decode calls (random stage).',
             'assumptions': COMMON_ASSUMPTIONS},
-    'C04': {'level': 'model_checking', 'stages': [DEC_MCFRAMES, DEC_FRAMES], 'nontrivial_case': nt_dec_any,
+    'C04': {'level': 'model_checking', 'stages': [DEC_MCFRAMES, DEC_FRAMES, SUITE_DEC], 'nontrivial_case': nt_dec_any,
             'rule': 'MC_Frames: every frame of 0..MaxMsgs messages from a catalogue of 25 payloads (all kinds, consistent / '
                     'inconsistent / bus-error), every truncation and several zero paddings, with and without a pending reassembly; '
                     'each replayed on the real decoder; plus random frames of 0..5 unsegmented messages of every payload kind with arbitrary field values, consistent and '
@@ -461,7 +471,7 @@ PROPS = {
                     'interleaved with header setters. Monitor C13 (raw = Render(header before, args), views give the arguments '
                     'back, own validity check and decoder accept). Non-trivial = distinct episodes that build on a used object.',
             'assumptions': COMMON_ASSUMPTIONS},
-    'C16': {'level': 'model_checking', 'stages': [ST_MC, ST_WALKS, ST_SYS, ST_SYS_WALKS, ST_RANDOM], 'nontrivial_case': nt_st,
+    'C16': {'level': 'model_checking', 'stages': [ST_MC, ST_WALKS, ST_SYS, ST_SYS_WALKS, ST_RANDOM, SUITE_ST], 'nontrivial_case': nt_st,
             'rule': 'MC_Status: the complete (finite, unbounded-depth) state graph of the tracker over Devs x Ifs x Tags with '
                     'capture-module status, interface status (also for devices that never sent a capture-module status), data '
                     'packets, removals and clear: the operational vector model refines the abstract latest-message map (InvC16); '
@@ -495,7 +505,7 @@ PROPS = {
                     '=> header present, inner structure consistent, every reported view inside the payload. Non-trivial = distinct '
                     'episodes (each holds validity checks).',
             'assumptions': COMMON_ASSUMPTIONS + ['an out-of-bounds read inside the library\'s own vectors is observed by ASan (crash event), not by TLC']},
-    'C15': {'level': 'model_checking', 'stages': [DEC_MCTECMP, DEC_RTECMP], 'nontrivial_case': nt_tecmp,
+    'C15': {'level': 'model_checking', 'stages': [DEC_MCTECMP, DEC_RTECMP, SUITE_DEC], 'nontrivial_case': nt_tecmp,
             'rule': 'MC_Tecmp: message type over all 256 values x 6 data types, data type over all 65536 values, CAN / CAN-FD / LIN '
                     'data lengths 0..64 with consistent and short payloads and 0..5 trailing CRC bytes, bus status with 0..40 entries '
                     'and shorter than its generic data, capture-module status of every size 1..46, declared payload lengths '
@@ -547,3 +557,7 @@ PROPS = {
             'assumptions': COMMON_ASSUMPTIONS + ['definedness is observed by memcheck and by the two heap fill patterns, not decided by TLA+',
                                                  'that the identical outputs are also the right ones is decided by the trace validation of C01, C04, C05, C07, C13, C15']},
 }
+
+for _p in PROPS.values():
+    if any(_s.get('kind') == 'suite' for _s in _p['stages']):
+        _p['rule'] += SUITE_RULE
